@@ -259,8 +259,10 @@ package heapq
 // remaining element to the end of the shrinking heap. Proved: the slice ends up sorted under cmp (the part of vs
 // beyond the heap is sorted and everything still in the heap is not above it: Pop returns the front, which is not
 // below the new front, which is not below anything left in the heap), no panic, termination, nothing outside vs is
-// written. That the result is a permutation of the input is a bounded stand-in (Pop and NewWithData keep the
-// multiset of the heap, proved; carrying that to the whole slice needs a split lemma for multisets of ranges).
+// written. Proved too: the result is a permutation of the input. bag(vs) is a loop invariant: Pop keeps the multiset
+// of the heap plus the popped element (proved), the popped element sits in the vacated cell just beyond the heap, so
+// the multiset of the cells [0, n0) is what it was at the head of the iteration (one bagstep instance), and lemma
+// bagExt extends that over the unchanged cells [n0, len(vs)).
 //@ func Sort
 //@   role cmp ord
 //@   ensures outside: unchanged_outside(vs)
